@@ -93,11 +93,27 @@ def _ptr_fact(tr, i):
     return None
 
 
+def _fresh_state(tr, i, a):
+    """is the value `a` assigned at position i of the trace a freshly allocated state: make_shared / allocate_shared written in place, kept
+    in a local first, or returned on this path by an expanded factory helper of the class (return std::make_shared<future_internal>(...))"""
+    for _ in range(4):
+        if 'make_shared' in (a or '') or 'allocate_shared' in (a or ''):
+            return True
+        o, j = origin_in_trace(tr, i, a)
+        if not o or o == a:
+            return False
+        a, i = o, j
+    return False
+
+
 def default_state(ctx, db):
     rid = ctx.rule('C17.default-state', 'GUARDED (nullness)', 'get_promise, init_if_needed, ready and value of shared_future are analysed from the entry state "_ptr may be null": no dereference '
                    'of _ptr (operator->, operator*) is reachable while it may be null; facts come from branches on _ptr and from assignment of make_shared; init_if_needed ends '
                    'with _ptr non-null on every path', floor=4)
-    T = Tracer(db, depth=1, inline_filter=inline_only('cocls::shared_future::init_if_needed'))
+    # helpers of shared_future itself are expanded (init_if_needed, and whatever a maintainer extracts: an accessor that returns *_ptr, a
+    # factory that returns make_shared, the statement that charges the tracer); the charge and the shared future's own members are not
+    T = htracer(db, extra=None)
+    T.inline_filter = (lambda flt: (lambda c, e, callee: callee['nname'] != 'cocls::shared_future::resolve_cb::charge' and class_of(db, callee) == SF and flt(c, e, callee)))(T.inline_filter)
     for name in ('cocls::shared_future::get_promise', 'cocls::shared_future::init_if_needed', 'cocls::shared_future::ready', 'cocls::shared_future::value'):
         fns = db.need(name)
         seen = set()
@@ -125,7 +141,7 @@ def default_state(ctx, db):
                         c = norm(ev.get('callee') or '')
                         if c.endswith('operator='):
                             a = (ev.get('args') or [{}])[0].get('path') or ''
-                            nn = 'make_shared' in a or 'allocate_shared' in a
+                            nn = _fresh_state(tr, i, a)
                         elif c.endswith('::reset'):
                             nn = bool(ev.get('args'))
                         elif re.search(r'operator->|operator\*', c) or c.endswith('::get') and False:
@@ -241,7 +257,8 @@ def tracer_first(ctx, db):
         for f in db.fns(name):
             if f['key'] in seen or norm(f.get('class') or '') != SF:
                 continue
-            creates = any(e.k == 'call' and norm(e.get('callee')) == 'std::make_shared' for e in f.events()) or name.endswith('get_promise')
+            # a constructor that allocates a state - itself or through a factory helper of the class (_ptr(make_state(...)))
+            creates = any(e.k == 'call' and norm(e.get('callee')) in ('std::make_shared', 'std::allocate_shared') for g in helper_bodies(db, f) for e in g.events()) or name.endswith('get_promise')
             if not creates:
                 continue
             seen.add(f['key'])
